@@ -28,9 +28,11 @@ type verifAssignRec struct {
 type verifGen struct {
 	assigns []verifAssignRec
 	calls   []string
+	builds  []verifAssignRec
 }
 
 func (g *verifGen) Build(ctx *MethodContext, sourceID *xtype.JenID, source, target *xtype.Type, path ErrorPath) ([]jen.Code, *xtype.JenID, *Error) {
+	g.builds = append(g.builds, verifAssignRec{sourceType: source.String, targetType: target.String})
 	return nil, xtype.VariableID(jen.Id("x")), nil
 }
 
